@@ -854,7 +854,12 @@ func (doc *Document) removeRevisionBody(ctx context.Context, revID string) {
 func (doc *Document) promoteNonWinningRevisionBody(ctx context.Context, revid string, loader RevLoaderFunc) {
 	// If the new revision is not current, transfer the current revision's
 	// body to the top level doc._body:
-	doc.UpdateBody(doc.getNonWinningRevisionBody(ctx, revid, loader))
+	body := doc.getNonWinningRevisionBody(ctx, revid, loader)
+	// While the revision was not current its attachment metadata lived in its stored body. It is the current revision
+	// now, so its attachments become the document's (replacing those of the revision that stopped being current).
+	doc.SetAttachments(GetBodyAttachments(body))
+	delete(body, BodyAttachments)
+	doc.UpdateBody(body)
 	doc.removeRevisionBody(ctx, revid)
 }
 
@@ -876,6 +881,15 @@ func (doc *Document) setRevisionBody(ctx context.Context, revid string, newDoc *
 		doc._rawBody = newDoc._rawBody
 	} else {
 		bodyBytes, _ := newDoc.BodyBytes(ctx)
+		// Attachment metadata of a non-winning revision lives in its stored body (as for backed up old revisions)
+		if len(newDoc.Attachments()) > 0 {
+			stampedBody, err := base.InjectJSONProperties(bodyBytes, base.KVPair{Key: BodyAttachments, Val: newDoc.Attachments()})
+			if err != nil {
+				base.WarnfCtx(ctx, "Unable to stamp attachments into body of non-winning rev %q: %v", revid, err)
+			} else {
+				bodyBytes = stampedBody
+			}
+		}
 		doc.setNonWinningRevisionBody(revid, bodyBytes, hasAttachments)
 	}
 }
